@@ -1,12 +1,2059 @@
-//! C19 — not implemented yet.
+//! C19 — EVM contract state stays coherent across nested, re-entrant and reverted calls.
+//! DESIGN §3 C19.
+//!
+//! What is enumerated: **call-tree scripts**. A script is a list of 1..M top-level messages; each
+//! message is a *frame* = (contract, op*, end); op ∈ {SSTORE k v, SLOAD k, TSTORE k v, TLOAD k,
+//! LOG, CREATE2(child), CALL f, CALL-with-value f, STATICCALL f, DELEGATECALL f} where f is again
+//! a frame; end ∈ {RETURN (implicit), REVERT, INVALID, SELFDESTRUCT(beneficiary)}. A tier is a
+//! list of *spaces* (`Space::for_tier`), each given by bounds on nesting depth, ops per frame,
+//! contracts, messages, senders, the alphabets, and the total number of ops of a script. ALL
+//! scripts of a space are generated, fewest ops first, and executed (no sampling; the only
+//! reduction is the canonical naming of contracts, argued at `Enumerator`).
+//!
+//! How a script runs: a code generator compiles a work unit of scripts into ONE bytecode per
+//! contract (entry: jump to the frame whose code offset is given in the first two bytes of the
+//! call data). The codes are deployed through the real EAM actor (`CreateExternal`, init code =
+//! "return the following bytes"); every top-level message is a real `InvokeContract` message from
+//! an account, carrying 2 atto. Every frame reports, in memory, what it observes: its ADDRESS,
+//! CALLER and CALLVALUE at entry, every value it reads, and after each call the success flag, the
+//! length and the bytes of the callee's return data (the callee's own report; a reverting frame
+//! reverts *with* its report). The top frame returns the whole report.
+//!
+//! Oracle: an **account journal** written from Ethereum semantics (Yellow Paper §8/§9, EIP-1153,
+//! EIP-214, EIP-7; *not* derived from /repo/actors/evm): per-contract storage / transient maps and
+//! balances, snapshot at call entry, restore when that frame reverts or fails, transient maps
+//! emptied at the end of every top-level message, self-destruct set applied at the end of the
+//! message (balance moved at once, contract alive until the end, afterwards no code / no storage),
+//! DELEGATECALL = callee code on the caller's storage / sender / value, STATICCALL = any write,
+//! log, creation, value transfer or self-destruct below it fails its frame. Compared after EVERY
+//! top-level message: success flag and return data of the message (= everything every frame read
+//! + all flags), `GetStorageAt` of every key of every contract, `GetBytecode` (empty iff
+//! destroyed), balances of all contracts, of both senders and of the beneficiary, the multiset of
+//! effective LOG events, existence of CREATE2 children.
+//!
+//! Two sender accounts are kept at EQUAL nonces, so that consecutive messages may differ in the
+//! origin only (spaces with `senders: 2`): the life span of transient storage and the
+//! "destroyed in an earlier message" test hang on the pair (origin, nonce).
+//!
+//! Deliberately NOT judged (the property is silent, or Ethereum and FEVM differ): exit codes; gas;
+//! order of logs across activations; event layout beyond emitter and first topic; the exact
+//! bytes behind `GetBytecode` of a live contract; the balance of a contract that received funds
+//! *after* self-destructing in the same message (Ethereum burns them at the end of the
+//! transaction, FEVM keeps them in the dead actor) — that contract's balance is no longer compared.
+//!
+//! Development knobs (not used by run.sh): `C19_SPACE="name=x,depth=3,size=4,..."` replaces the
+//! tier's spaces, `C19_COUNT_ONLY=1` only counts the scripts, `C19_CAP_S`, `MC_THREADS`,
+//! `MC_TIMING`.
+use crate::util::*;
+use fil_actors_runtime::runtime::{Policy, Primitives};
+use fil_actors_runtime::{EAM_ACTOR_ADDR, EAM_ACTOR_ID, SYSTEM_ACTOR_ADDR};
+use fvm_ipld_encoding::ipld_block::IpldBlock;
+use fvm_ipld_encoding::{BytesDe, BytesSer};
+use fvm_shared::ActorID;
+use fvm_shared::address::Address;
+use fvm_shared::crypto::hash::SupportedHashes;
+use fvm_shared::econ::TokenAmount;
+use mcvm::{Inv, MsgKind, Snapshot, Store, Vm};
+use mcx::{PathStep, ViolationReport};
+use num_traits::Zero;
+use serde::{Deserialize, Serialize};
+use serde_json::{Value, json};
+use std::collections::{BTreeMap, HashSet};
+use std::sync::Mutex;
+use std::sync::atomic::{AtomicBool, Ordering};
+use std::time::Instant;
 
-pub fn run(_tier: &str) -> ! {
-    eprintln!("C19: check not implemented");
-    std::process::exit(2)
+// =============================================================================================
+// Scripts
+// =============================================================================================
+
+#[derive(Clone, Copy, Debug, PartialEq, Eq, PartialOrd, Ord, Serialize, Deserialize)]
+pub enum Kind {
+    Call,
+    /// CALL transferring 1 atto.
+    CallValue,
+    Static,
+    Delegate,
+}
+
+#[derive(Clone, Debug, PartialEq, Eq, Serialize, Deserialize)]
+pub enum Op {
+    SStore(u8, u8),
+    SLoad(u8),
+    TStore(u8, u8),
+    TLoad(u8),
+    /// LOG1 with a topic unique within the script (numbered by `Script::number_logs`).
+    Log(u16),
+    /// CREATE2(value 0, salt 0, fixed child init code); reports whether an address came back.
+    Create2,
+    Call(Kind, Frame),
+}
+
+#[derive(Clone, Copy, Debug, PartialEq, Eq, PartialOrd, Ord, Serialize, Deserialize)]
+pub enum End {
+    Return,
+    Revert,
+    Invalid,
+    SelfDestruct,
+}
+
+#[derive(Clone, Debug, PartialEq, Eq, Serialize, Deserialize)]
+pub struct Frame {
+    /// Contract whose code this frame is (for DELEGATECALL: where the code lives).
+    pub c: u8,
+    pub ops: Vec<Op>,
+    pub end: End,
+}
+
+#[derive(Clone, Debug, PartialEq, Eq, Serialize, Deserialize)]
+pub struct Script {
+    pub msgs: Vec<Frame>,
+    /// Which of the two sender accounts sends message i (missing = sender 0). The two accounts
+    /// are arranged to have EQUAL nonces when they send their first message of a script, so that
+    /// consecutive messages can differ in the origin only, in the nonce only, or in both.
+    #[serde(default)]
+    pub senders: Vec<u8>,
+}
+
+impl Frame {
+    fn walk<'a>(&'a self, f: &mut dyn FnMut(&'a Frame)) {
+        f(self);
+        for op in &self.ops {
+            if let Op::Call(_, g) = op {
+                g.walk(f);
+            }
+        }
+    }
+    fn number_logs(&mut self, next: &mut u16) {
+        for op in &mut self.ops {
+            match op {
+                Op::Log(t) => {
+                    *t = *next;
+                    *next += 1;
+                }
+                Op::Call(_, g) => g.number_logs(next),
+                _ => {}
+            }
+        }
+    }
+    fn pretty(&self, out: &mut String) {
+        out.push((b'A' + self.c) as char);
+        out.push('{');
+        let mut first = true;
+        let mut sep = |out: &mut String| {
+            if !first {
+                out.push_str("; ");
+            }
+            first = false;
+        };
+        for op in &self.ops {
+            sep(out);
+            match op {
+                Op::SStore(k, v) => out.push_str(&format!("s{k}={v}")),
+                Op::SLoad(k) => out.push_str(&format!("s{k}?")),
+                Op::TStore(k, v) => out.push_str(&format!("t{k}={v}")),
+                Op::TLoad(k) => out.push_str(&format!("t{k}?")),
+                Op::Log(t) => out.push_str(&format!("log#{t}")),
+                Op::Create2 => out.push_str("create2"),
+                Op::Call(k, g) => {
+                    out.push_str(match k {
+                        Kind::Call => "call ",
+                        Kind::CallValue => "call+1 ",
+                        Kind::Static => "static ",
+                        Kind::Delegate => "delegate ",
+                    });
+                    g.pretty(out);
+                }
+            }
+        }
+        match self.end {
+            End::Return => {}
+            End::Revert => {
+                sep(out);
+                out.push_str("REVERT")
+            }
+            End::Invalid => {
+                sep(out);
+                out.push_str("INVALID")
+            }
+            End::SelfDestruct => {
+                sep(out);
+                out.push_str("SELFDESTRUCT")
+            }
+        }
+        out.push('}');
+    }
+}
+
+impl Script {
+    pub fn sender_of(&self, i: usize) -> usize {
+        self.senders.get(i).copied().unwrap_or(0) as usize
+    }
+    pub fn contracts(&self) -> usize {
+        let mut n = 0;
+        for m in &self.msgs {
+            m.walk(&mut |f| n = n.max(f.c as usize + 1));
+        }
+        n
+    }
+    pub fn number_logs(&mut self) {
+        let mut next = 1;
+        for m in &mut self.msgs {
+            m.number_logs(&mut next);
+        }
+    }
+    pub fn uses_create2(&self) -> bool {
+        let mut y = false;
+        for m in &self.msgs {
+            m.walk(&mut |f| y |= f.ops.iter().any(|o| matches!(o, Op::Create2)));
+        }
+        y
+    }
+    pub fn pretty(&self) -> String {
+        let mut s = String::new();
+        for (i, m) in self.msgs.iter().enumerate() {
+            if i > 0 {
+                s.push_str("  |  ");
+            }
+            s.push_str(&format!("msg{}{}: ", i + 1, if self.sender_of(i) == 0 { "" } else { " (2nd sender)" }));
+            m.pretty(&mut s);
+        }
+        s
+    }
+}
+
+// =============================================================================================
+// The script space and its enumeration
+// =============================================================================================
+
+#[derive(Clone, Debug, Serialize)]
+pub struct Space {
+    pub name: String,
+    /// Nesting depth of frames (a top-level frame has depth 1).
+    pub max_depth: usize,
+    /// Ops per frame, an explicit REVERT / INVALID / SELFDESTRUCT counting as one.
+    pub max_ops: usize,
+    pub max_contracts: usize,
+    pub max_msgs: usize,
+    /// Total number of ops of a script (every op of every frame of every message, explicit
+    /// terminators included, a call counting 1 + the size of its callee frame).
+    pub max_size: usize,
+    pub keys: Vec<u8>,
+    pub values: Vec<u8>,
+    pub kinds: Vec<Kind>,
+    pub ends: Vec<End>,
+    pub log: bool,
+    pub create2: bool,
+    /// 1: every message comes from the same account; 2: messages 2.. come from either of two
+    /// accounts (all assignments)
+    pub senders: usize,
+    /// scripts per work unit / code-size budget of one deployed system (machinery, not bounds)
+    pub batch: usize,
+    pub code_budget: usize,
+}
+
+impl Space {
+    /// The design alphabet: k in {0,1}, v in {1,2}, all four call kinds, REVERT and SELFDESTRUCT.
+    fn base(name: &str) -> Space {
+        Space {
+            name: name.into(),
+            max_depth: 2,
+            max_ops: 3,
+            max_contracts: 3,
+            max_msgs: 2,
+            max_size: 3,
+            keys: vec![0, 1],
+            values: vec![1, 2],
+            kinds: vec![Kind::Call, Kind::CallValue, Kind::Static, Kind::Delegate],
+            ends: vec![End::Revert, End::SelfDestruct],
+            log: false,
+            create2: false,
+            senders: 1,
+            batch: 16,
+            code_budget: 16 << 10,
+        }
+    }
+
+    /// `C19_SPACE="name=x,depth=3,ops=3,contracts=3,msgs=2,size=5,keys=0,values=1:2,kinds=call:callv:static:delegate,ends=revert:invalid:sd,log=1,create2=0"`
+    fn from_spec(spec: &str) -> Space {
+        let mut sp = Space::base("custom");
+        for kv in spec.split(',') {
+            let (k, v) = kv.split_once('=').expect("key=value");
+            let nums = || v.split(':').filter(|x| !x.is_empty()).map(|x| x.parse::<u8>().unwrap()).collect::<Vec<_>>();
+            match k {
+                "name" => sp.name = v.into(),
+                "depth" => sp.max_depth = v.parse().unwrap(),
+                "ops" => sp.max_ops = v.parse().unwrap(),
+                "contracts" => sp.max_contracts = v.parse().unwrap(),
+                "msgs" => sp.max_msgs = v.parse().unwrap(),
+                "size" => sp.max_size = v.parse().unwrap(),
+                "batch" => sp.batch = v.parse().unwrap(),
+                "budget" => sp.code_budget = v.parse().unwrap(),
+                "keys" => sp.keys = nums(),
+                "values" => sp.values = nums(),
+                "log" => sp.log = v == "1",
+                "create2" => sp.create2 = v == "1",
+                "senders" => sp.senders = v.parse().unwrap(),
+                "kinds" => {
+                    sp.kinds = v
+                        .split(':')
+                        .filter(|x| !x.is_empty())
+                        .map(|x| match x {
+                            "call" => Kind::Call,
+                            "callv" => Kind::CallValue,
+                            "static" => Kind::Static,
+                            "delegate" => Kind::Delegate,
+                            _ => panic!("unknown call kind {x}"),
+                        })
+                        .collect()
+                }
+                "ends" => {
+                    sp.ends = v
+                        .split(':')
+                        .filter(|x| !x.is_empty())
+                        .map(|x| match x {
+                            "revert" => End::Revert,
+                            "invalid" => End::Invalid,
+                            "sd" => End::SelfDestruct,
+                            _ => panic!("unknown end {x}"),
+                        })
+                        .collect()
+                }
+                _ => panic!("unknown space key {k}"),
+            }
+        }
+        assert!(sp.max_contracts <= MAX_CONTRACTS && sp.max_contracts >= 1 && sp.max_depth >= 1);
+        sp
+    }
+
+    pub fn for_tier(tier: &str) -> Vec<Space> {
+        if let Ok(spec) = std::env::var("C19_SPACE") {
+            return spec.split(';').map(Space::from_spec).collect();
+        }
+        use End::*;
+        use Kind::*;
+        let b = Space::base;
+        if tier_is_thorough(tier) {
+            vec![
+                // Ordered smallest first, so that a run capped by the wall clock (exhaustive:false)
+                // still completes the cheap spaces.
+                // every op of the alphabet incl. LOG and CREATE2, two senders, small scripts
+                Space { max_depth: 4, max_ops: 4, max_contracts: 4, max_msgs: 3, max_size: 3, values: vec![0, 1, 2], ends: vec![Revert, Invalid, SelfDestruct], log: true, create2: true, senders: 2, ..b("everything-small") },
+                // one key, longer call trees
+                Space { max_depth: 4, max_ops: 4, max_contracts: 2, max_msgs: 1, max_size: 6, keys: vec![0], values: vec![1], kinds: vec![Call, Delegate], ends: vec![Revert], ..b("deeper") },
+                Space { max_depth: 3, max_ops: 4, max_contracts: 2, max_msgs: 2, max_size: 5, keys: vec![0], values: vec![0, 1], kinds: vec![Call, Delegate], ..b("deep-two-messages") },
+                Space { max_depth: 4, max_ops: 4, max_contracts: 3, max_msgs: 1, max_size: 5, keys: vec![0], ..b("deep") },
+                // the design alphabet (+ value 0, + INVALID) one op deeper than quick
+                Space { max_depth: 4, max_ops: 4, max_contracts: 4, max_msgs: 3, max_size: 4, values: vec![0, 1, 2], ends: vec![Revert, Invalid, SelfDestruct], ..b("full-alphabet") },
+            ]
+        } else {
+            vec![
+                // the design alphabet + value 0 (slot deletion) + INVALID + LOG
+                Space { values: vec![0, 1, 2], ends: vec![Revert, Invalid, SelfDestruct], log: true, ..b("full-alphabet") },
+                // one key, depth 3, one op more
+                Space { max_depth: 3, max_contracts: 2, max_msgs: 1, max_size: 4, keys: vec![0], kinds: vec![Call, Static, Delegate], ..b("deep") },
+                // up to three messages from two senders with equal nonces
+                Space { max_contracts: 2, max_msgs: 3, keys: vec![0], values: vec![1], kinds: vec![Call, Delegate], senders: 2, ..b("two-senders") },
+            ]
+        }
+    }
+
+    fn simple_ops(&self) -> Vec<Op> {
+        let mut v = vec![];
+        for &k in &self.keys {
+            for &x in &self.values {
+                v.push(Op::SStore(k, x));
+            }
+        }
+        for &k in &self.keys {
+            v.push(Op::SLoad(k));
+        }
+        for &k in &self.keys {
+            for &x in &self.values {
+                v.push(Op::TStore(k, x));
+            }
+        }
+        for &k in &self.keys {
+            v.push(Op::TLoad(k));
+        }
+        if self.log {
+            v.push(Op::Log(0));
+        }
+        if self.create2 {
+            v.push(Op::Create2);
+        }
+        v
+    }
+}
+
+/// Streams every script of the space, smallest total size first.
+///
+/// The only reduction applied is the **naming of contracts**: contracts are numbered in the order
+/// of their first appearance in the pre-order walk of the script (message 1's top frame is always
+/// contract A, the next contract that appears is B, ...). Argument: a contract's name carries no
+/// meaning except identity — every contract of a system starts empty, with code generated from the
+/// script alone, and its address is an (arbitrary) hash in either naming; a script and its image
+/// under a permutation of names describe the same call tree over the same number of distinct
+/// contracts, deployed in a different order. (The initial balances differ per name, 16·2^i atto,
+/// only to make mix-ups of accounts visible; no behaviour within the bounds depends on the amount
+/// beyond "can pay 1 atto", which holds for every contract until it self-destructs.) Likewise the
+/// first message is always sent by sender 0. No pruning by keys, values or "relevance" is done:
+/// every syntactically different script within the bounds is executed.
+struct Enumerator<'a> {
+    sp: &'a Space,
+    simple: Vec<Op>,
+    stop: &'a AtomicBool,
+}
+
+impl<'a> Enumerator<'a> {
+    /// All frames of exactly `size` ops with nesting depth <= `depth`, given that `n_in` contracts
+    /// have been named before this frame; `out(frame, n_out)`.
+    fn frames(&self, depth: usize, size: usize, n_in: u8, out: &mut dyn FnMut(&Frame, u8)) {
+        let maxc = self.sp.max_contracts as u8;
+        for c in 0..=n_in.min(maxc - 1) {
+            let n = n_in.max(c + 1);
+            let mut ops = vec![];
+            self.extend(depth, c, n, size, &mut ops, out);
+        }
+    }
+
+    fn extend(&self, depth: usize, c: u8, n: u8, remaining: usize, ops: &mut Vec<Op>, out: &mut dyn FnMut(&Frame, u8)) {
+        if self.stop.load(Ordering::Relaxed) {
+            return;
+        }
+        if remaining == 0 {
+            out(&Frame { c, ops: ops.clone(), end: End::Return }, n);
+            return;
+        }
+        if ops.len() >= self.sp.max_ops {
+            return;
+        }
+        if remaining == 1 {
+            for &e in &self.sp.ends {
+                out(&Frame { c, ops: ops.clone(), end: e }, n);
+            }
+        }
+        for op in &self.simple {
+            ops.push(op.clone());
+            self.extend(depth, c, n, remaining - 1, ops, out);
+            ops.pop();
+        }
+        if depth >= 2 {
+            for t in 0..remaining {
+                for &kind in &self.sp.kinds {
+                    self.frames(depth - 1, t, n, &mut |callee, n2| {
+                        ops.push(Op::Call(kind, callee.clone()));
+                        self.extend(depth, c, n2, remaining - 1 - t, ops, out);
+                        ops.pop();
+                    });
+                }
+            }
+        }
+    }
+
+    /// All message lists with exactly `sizes[i]` ops in message i.
+    fn messages(&self, sizes: &[usize], n_in: u8, acc: &mut Vec<Frame>, out: &mut dyn FnMut(&[Frame])) {
+        if sizes.is_empty() {
+            out(acc);
+            return;
+        }
+        self.frames(self.sp.max_depth, sizes[0], n_in, &mut |f, n| {
+            acc.push(f.clone());
+            self.messages(&sizes[1..], n, acc, out);
+            acc.pop();
+        });
+    }
+
+    /// `out(size_class, script)`.
+    fn run(&self, out: &mut dyn FnMut(usize, Script)) {
+        for size in 1..=self.sp.max_size {
+            for m in 1..=self.sp.max_msgs.min(size) {
+                for comp in compositions(size, m) {
+                    let mut acc = vec![];
+                    self.messages(&comp, 0, &mut acc, &mut |msgs| {
+                        // sender assignments: message 1 by sender 0, the others by any of them
+                        let free = if self.sp.senders >= 2 { msgs.len() - 1 } else { 0 };
+                        for bits in 0..(1u32 << free) {
+                            let senders = (0..msgs.len()).map(|i| if i == 0 { 0 } else { ((bits >> (i - 1)) & 1) as u8 }).collect();
+                            let mut s = Script { msgs: msgs.to_vec(), senders };
+                            s.number_logs();
+                            out(size, s);
+                        }
+                    });
+                }
+            }
+        }
+    }
+}
+
+/// Ordered compositions of `n` into `m` parts >= 1, lexicographic.
+fn compositions(n: usize, m: usize) -> Vec<Vec<usize>> {
+    if m == 1 {
+        return vec![vec![n]];
+    }
+    let mut v = vec![];
+    for first in 1..=(n - (m - 1)) {
+        for mut rest in compositions(n - first, m - 1) {
+            let mut c = vec![first];
+            c.append(&mut rest);
+            v.push(c);
+        }
+    }
+    v
+}
+
+// =============================================================================================
+// Tiny assembler and the code generator
+// =============================================================================================
+
+mod op {
+    pub const ADD: u8 = 0x01;
+    pub const SUB: u8 = 0x03;
+    pub const ISZERO: u8 = 0x15;
+    pub const SHL: u8 = 0x1b;
+    pub const SHR: u8 = 0x1c;
+    pub const ADDRESS: u8 = 0x30;
+    pub const CALLER: u8 = 0x33;
+    pub const CALLVALUE: u8 = 0x34;
+    pub const CALLDATALOAD: u8 = 0x35;
+    pub const CODECOPY: u8 = 0x39;
+    pub const RETURNDATASIZE: u8 = 0x3d;
+    pub const RETURNDATACOPY: u8 = 0x3e;
+    pub const MLOAD: u8 = 0x51;
+    pub const MSTORE: u8 = 0x52;
+    pub const MSTORE8: u8 = 0x53;
+    pub const SLOAD: u8 = 0x54;
+    pub const SSTORE: u8 = 0x55;
+    pub const JUMP: u8 = 0x56;
+    pub const GAS: u8 = 0x5a;
+    pub const JUMPDEST: u8 = 0x5b;
+    pub const TLOAD: u8 = 0x5c;
+    pub const TSTORE: u8 = 0x5d;
+    pub const PUSH0: u8 = 0x5f;
+    pub const PUSH1: u8 = 0x60;
+    pub const DUP1: u8 = 0x80;
+    pub const DUP2: u8 = 0x81;
+    pub const SWAP1: u8 = 0x90;
+    pub const LOG1: u8 = 0xa1;
+    pub const CALL: u8 = 0xf1;
+    pub const RETURN: u8 = 0xf3;
+    pub const DELEGATECALL: u8 = 0xf4;
+    pub const CREATE2: u8 = 0xf5;
+    pub const STATICCALL: u8 = 0xfa;
+    pub const REVERT: u8 = 0xfd;
+    pub const INVALID: u8 = 0xfe;
+    pub const SELFDESTRUCT: u8 = 0xff;
+}
+
+/// Memory map of every activation: [0x00,0x20) call-input scratch, [0x20,0x40) report end
+/// pointer P, report bytes from 0x40.
+const PTR: u8 = 0x20;
+const REPORT0: u8 = 0x40;
+
+#[derive(Default)]
+struct Asm {
+    code: Vec<u8>,
+    /// (position of a 2-byte immediate, frame uid whose code offset goes there)
+    fixups: Vec<(usize, usize)>,
+}
+
+impl Asm {
+    fn o(&mut self, b: u8) -> &mut Self {
+        self.code.push(b);
+        self
+    }
+    fn push1(&mut self, v: u8) -> &mut Self {
+        if v == 0 {
+            self.code.push(op::PUSH0);
+        } else {
+            self.code.extend_from_slice(&[op::PUSH1, v]);
+        }
+        self
+    }
+    fn push2(&mut self, v: u16) -> &mut Self {
+        self.code.push(op::PUSH1 + 1);
+        self.code.extend_from_slice(&v.to_be_bytes());
+        self
+    }
+    fn pushn(&mut self, bytes: &[u8]) -> &mut Self {
+        assert!(!bytes.is_empty() && bytes.len() <= 32);
+        self.code.push(op::PUSH1 + (bytes.len() as u8 - 1));
+        self.code.extend_from_slice(bytes);
+        self
+    }
+    /// stack: [v] -> []; report ++= low byte of v
+    fn append1(&mut self) -> &mut Self {
+        self.push1(PTR).o(op::MLOAD).o(op::SWAP1).o(op::DUP2).o(op::MSTORE8);
+        self.push1(1).o(op::ADD).push1(PTR).o(op::MSTORE)
+    }
+    /// stack: [addr] -> []; report ++= 20 bytes of addr
+    fn append20(&mut self) -> &mut Self {
+        self.push1(96).o(op::SHL).push1(PTR).o(op::MLOAD).o(op::SWAP1).o(op::DUP2).o(op::MSTORE);
+        self.push1(20).o(op::ADD).push1(PTR).o(op::MSTORE)
+    }
+    /// push (P - REPORT0), push REPORT0  => ready for RETURN / REVERT
+    fn report_region(&mut self) -> &mut Self {
+        self.push1(REPORT0).push1(PTR).o(op::MLOAD).o(op::SUB).push1(REPORT0)
+    }
+}
+
+/// Run-time code of the CREATE2 child: returns one byte, its storage slot 0.
+const CHILD_RUNTIME: [u8; 8] = [op::PUSH0, op::SLOAD, op::PUSH0, op::MSTORE8, op::PUSH1, 1, op::PUSH0, op::RETURN];
+
+/// Init code of the CREATE2 child: slot0 := 1, return CHILD_RUNTIME.
+fn child_init() -> Vec<u8> {
+    let mut v = vec![op::PUSH1, 1, op::PUSH0, op::SSTORE];
+    // PUSH1 len DUP1 PUSH1 off PUSH0 CODECOPY PUSH0 RETURN   (9 bytes)
+    let off = (v.len() + 9) as u8;
+    v.extend_from_slice(&[op::PUSH1, CHILD_RUNTIME.len() as u8, op::DUP1, op::PUSH1, off, op::PUSH0, op::CODECOPY, op::PUSH0, op::RETURN]);
+    v.extend_from_slice(&CHILD_RUNTIME);
+    v
+}
+
+/// Init code that returns `runtime`.
+fn init_code(runtime: &[u8]) -> Vec<u8> {
+    let mut a = Asm::default();
+    a.push2(runtime.len() as u16).o(op::DUP1).push2(11).o(op::PUSH0).o(op::CODECOPY).o(op::PUSH0).o(op::RETURN);
+    assert_eq!(a.code.len(), 11);
+    a.code.extend_from_slice(runtime);
+    a.code
+}
+
+pub struct Compiled {
+    /// run-time code per contract
+    pub codes: Vec<Vec<u8>>,
+    /// per script, per message: code offset of the top frame
+    pub entries: Vec<Vec<u16>>,
+}
+
+struct Compiler<'e> {
+    env: &'e Env,
+    asms: Vec<Asm>,
+    /// uid -> code offset (in the code of the frame's contract)
+    offsets: Vec<u16>,
+}
+
+impl<'e> Compiler<'e> {
+    fn new(env: &'e Env, ncontracts: usize) -> Self {
+        let mut asms = vec![];
+        for _ in 0..ncontracts {
+            let mut a = Asm::default();
+            // dispatcher: jump to the offset given in the first two bytes of the call data
+            a.o(op::PUSH0).o(op::CALLDATALOAD).push1(0xf0).o(op::SHR).o(op::JUMP);
+            asms.push(a);
+        }
+        Compiler { env, asms, offsets: vec![] }
+    }
+
+    fn alloc(&mut self) -> usize {
+        self.offsets.push(0);
+        self.offsets.len() - 1
+    }
+
+    /// Emit `f` (and, after it, every frame it calls); returns its uid.
+    fn frame(&mut self, f: &Frame) -> usize {
+        let uid = self.alloc();
+        self.emit(uid, f);
+        uid
+    }
+
+    fn emit(&mut self, uid: usize, f: &Frame) {
+        let mut pending: Vec<(usize, &Frame)> = vec![];
+        let ben = self.env.ben.1;
+        let me = f.c as usize;
+        let off = self.asms[me].code.len();
+        assert!(off < 0xffff);
+        self.offsets[uid] = off as u16;
+        // prologue
+        {
+            let a = &mut self.asms[me];
+            a.o(op::JUMPDEST);
+            a.push1(REPORT0).push1(PTR).o(op::MSTORE);
+            a.o(op::ADDRESS).append20();
+            a.o(op::CALLER).append20();
+            a.o(op::CALLVALUE).append1();
+        }
+        for o in &f.ops {
+            match o {
+                Op::SStore(k, v) => {
+                    self.asms[me].push1(*v).push1(*k).o(op::SSTORE);
+                }
+                Op::SLoad(k) => {
+                    self.asms[me].push1(*k).o(op::SLOAD).append1();
+                }
+                Op::TStore(k, v) => {
+                    self.asms[me].push1(*v).push1(*k).o(op::TSTORE);
+                }
+                Op::TLoad(k) => {
+                    self.asms[me].push1(*k).o(op::TLOAD).append1();
+                }
+                Op::Log(t) => {
+                    // LOG1(offset 0, size 0, topic t)
+                    self.asms[me].push2(*t).o(op::PUSH0).o(op::PUSH0).o(op::LOG1);
+                }
+                Op::Create2 => {
+                    let init = child_init();
+                    let a = &mut self.asms[me];
+                    a.pushn(&init).o(op::PUSH0).o(op::MSTORE);
+                    // CREATE2(value 0, offset 32-len, size len, salt 0)
+                    a.o(op::PUSH0).push1(init.len() as u8).push1(32 - init.len() as u8).o(op::PUSH0).o(op::CREATE2);
+                    a.o(op::ISZERO).o(op::ISZERO).append1();
+                }
+                Op::Call(kind, g) => {
+                    let callee = self.alloc();
+                    pending.push((callee, g));
+                    let target = self.env.addrs[g.c as usize];
+                    let a = &mut self.asms[me];
+                    // call data: 2-byte frame offset of the callee at mem[0..2)
+                    a.o(op::PUSH1 + 1);
+                    a.fixups.push((a.code.len(), callee));
+                    a.code.extend_from_slice(&[0, 0]);
+                    a.push1(0xf0).o(op::SHL).o(op::PUSH0).o(op::MSTORE);
+                    // outSize outOff inSize inOff [value] addr gas
+                    a.o(op::PUSH0).o(op::PUSH0).push1(2).o(op::PUSH0);
+                    match kind {
+                        Kind::Call => {
+                            a.o(op::PUSH0);
+                        }
+                        Kind::CallValue => {
+                            a.push1(1);
+                        }
+                        _ => {}
+                    }
+                    a.pushn(&target).o(op::GAS);
+                    a.o(match kind {
+                        Kind::Call | Kind::CallValue => op::CALL,
+                        Kind::Static => op::STATICCALL,
+                        Kind::Delegate => op::DELEGATECALL,
+                    });
+                    a.append1(); // success flag
+                    a.o(op::RETURNDATASIZE).append1(); // length (mod 256)
+                    // RETURNDATACOPY(dest P, offset 0, size RETURNDATASIZE); P += RETURNDATASIZE
+                    a.o(op::RETURNDATASIZE).o(op::PUSH0).push1(PTR).o(op::MLOAD).o(op::RETURNDATACOPY);
+                    a.o(op::RETURNDATASIZE).push1(PTR).o(op::MLOAD).o(op::ADD).push1(PTR).o(op::MSTORE);
+                }
+            }
+        }
+        {
+            let a = &mut self.asms[me];
+            match f.end {
+                End::Return => {
+                    a.report_region().o(op::RETURN);
+                }
+                End::Revert => {
+                    a.report_region().o(op::REVERT);
+                }
+                End::Invalid => {
+                    a.o(op::INVALID);
+                }
+                End::SelfDestruct => {
+                    a.pushn(&ben).o(op::SELFDESTRUCT);
+                }
+            }
+        }
+        for (uid, g) in pending {
+            self.emit(uid, g);
+        }
+    }
+
+    fn max_code_len(&self) -> usize {
+        self.asms.iter().map(|a| a.code.len()).max().unwrap_or(0)
+    }
+
+    fn finish(self) -> Vec<Vec<u8>> {
+        let Compiler { asms, offsets, .. } = self;
+        asms.into_iter()
+            .map(|mut a| {
+                for (pos, uid) in std::mem::take(&mut a.fixups) {
+                    a.code[pos..pos + 2].copy_from_slice(&offsets[uid].to_be_bytes());
+                }
+                a.code
+            })
+            .collect()
+    }
+}
+
+/// Compile as many of `scripts` (a prefix) as fit the code-size budget into one system.
+fn compile_batch(env: &Env, scripts: &[Script], budget: usize) -> (Compiled, usize) {
+    let n = scripts.iter().map(|s| s.contracts()).max().unwrap_or(1);
+    let mut c = Compiler::new(env, n);
+    let mut entries_uid: Vec<Vec<usize>> = vec![];
+    let mut taken = 0;
+    for s in scripts {
+        if taken > 0 && c.max_code_len() > budget {
+            break;
+        }
+        entries_uid.push(s.msgs.iter().map(|m| c.frame(m)).collect());
+        taken += 1;
+    }
+    let offsets = c.offsets.clone();
+    let entries = entries_uid.into_iter().map(|v| v.into_iter().map(|u| offsets[u]).collect()).collect();
+    let codes = c.finish();
+    for code in &codes {
+        assert!(code.len() <= 24 << 10, "generated code too large");
+    }
+    (Compiled { codes, entries }, taken)
+}
+
+// =============================================================================================
+// The reference model: an account journal
+// =============================================================================================
+
+#[derive(Clone, Debug, Default, PartialEq, Eq, Serialize)]
+pub struct Account {
+    pub storage: BTreeMap<u8, u8>,
+    pub transient: BTreeMap<u8, u8>,
+    pub balance: i128,
+    /// In the self-destruct set of the running message.
+    pub destructing: bool,
+    /// Destroyed at the end of an earlier message: no code, no storage.
+    pub dead: bool,
+    /// Received funds after self-destructing within the same message: Ethereum burns them, FEVM
+    /// keeps them; the property is silent, the balance is no longer judged.
+    pub balance_unspecified: bool,
+    /// The CREATE2 child of this contract exists.
+    pub child: bool,
+}
+
+#[derive(Clone, Debug, Default, PartialEq, Eq, Serialize)]
+pub struct Journal {
+    pub acc: Vec<Account>,
+    pub sender: [i128; 2],
+    pub beneficiary: i128,
+    /// (emitting contract, topic) of the running message
+    pub logs: Vec<(u8, u16)>,
+}
+
+impl Journal {
+    /// Canonical bytes of the first `nc` accounts + externals (for counting distinct states).
+    fn bytes(&self, nc: usize) -> Vec<u8> {
+        let mut v = vec![];
+        for a in self.acc.iter().take(nc) {
+            for (k, x) in &a.storage {
+                v.extend_from_slice(&[1, *k, *x]);
+            }
+            for (k, x) in &a.transient {
+                v.extend_from_slice(&[2, *k, *x]);
+            }
+            v.push(3);
+            v.extend_from_slice(&a.balance.to_le_bytes());
+            v.extend_from_slice(&[a.destructing as u8, a.dead as u8, a.balance_unspecified as u8, a.child as u8]);
+        }
+        v.extend_from_slice(&self.beneficiary.to_le_bytes());
+        v
+    }
+}
+
+#[derive(Clone, Copy, PartialEq, Eq)]
+enum Who {
+    Sender(usize),
+    C(u8),
+}
+
+#[derive(Clone, Copy)]
+struct Ctx {
+    /// whose storage / balance / identity (ADDRESS)
+    me: u8,
+    caller: Who,
+    value: u8,
+    is_static: bool,
+    depth: usize,
+}
+
+/// What the model execution of a script exercised (vacuity statistics).
+#[derive(Clone, Debug, Default, Serialize)]
+pub struct Cover {
+    pub ops: BTreeMap<&'static str, u64>,
+    pub frames_run: u64,
+    pub frames_reverted: u64,
+    pub frames_failed: u64,
+    pub reentrant_frames: u64,
+    pub selfdestructs: u64,
+    pub calls_into_dead: u64,
+    pub nonzero_reads: u64,
+    pub static_violations: u64,
+    pub insufficient_funds: u64,
+    pub delegate_frames: u64,
+    pub rolled_back_writes: u64,
+}
+
+impl Cover {
+    fn hit(&mut self, k: &'static str) {
+        *self.ops.entry(k).or_default() += 1;
+    }
+    fn merge(&mut self, o: &Cover) {
+        for (k, v) in &o.ops {
+            *self.ops.entry(k).or_default() += v;
+        }
+        self.frames_run += o.frames_run;
+        self.frames_reverted += o.frames_reverted;
+        self.frames_failed += o.frames_failed;
+        self.reentrant_frames += o.reentrant_frames;
+        self.selfdestructs += o.selfdestructs;
+        self.calls_into_dead += o.calls_into_dead;
+        self.nonzero_reads += o.nonzero_reads;
+        self.static_violations += o.static_violations;
+        self.insufficient_funds += o.insufficient_funds;
+        self.delegate_frames += o.delegate_frames;
+        self.rolled_back_writes += o.rolled_back_writes;
+    }
+}
+
+pub struct Model<'e> {
+    env: &'e Env,
+    pub j: Journal,
+    pub cov: Cover,
+    /// contracts with an activation on the call stack (for the re-entrancy statistics)
+    active: Vec<u8>,
+}
+
+pub const TOP_VALUE: u8 = 2;
+
+impl<'e> Model<'e> {
+    pub fn new(env: &'e Env, ncontracts: usize) -> Self {
+        let mut j = Journal { sender: [env.sender_balance; 2], beneficiary: 0, ..Default::default() };
+        for i in 0..ncontracts {
+            j.acc.push(Account { balance: endowment(i), ..Default::default() });
+            j.sender[0] -= endowment(i); // paid at deployment
+        }
+        Model { env, j, cov: Cover::default(), active: vec![] }
+    }
+
+    fn addr_of(&self, w: Who) -> [u8; 20] {
+        match w {
+            Who::Sender(i) => self.env.senders[i].1,
+            Who::C(c) => self.env.addrs[c as usize],
+        }
+    }
+
+    /// Body of a frame. Returns (success, return data). The caller restores its snapshot when
+    /// success is false.
+    fn run_frame(&mut self, f: &Frame, cx: Ctx) -> (bool, Vec<u8>) {
+        self.cov.frames_run += 1;
+        if self.active.contains(&cx.me) {
+            self.cov.reentrant_frames += 1;
+        }
+        self.active.push(cx.me);
+        let r = self.run_frame_inner(f, cx);
+        self.active.pop();
+        r
+    }
+
+    fn run_frame_inner(&mut self, f: &Frame, cx: Ctx) -> (bool, Vec<u8>) {
+        let me = cx.me as usize;
+        let mut rep = vec![];
+        rep.extend_from_slice(&self.env.addrs[me]);
+        rep.extend_from_slice(&self.addr_of(cx.caller));
+        rep.push(cx.value);
+        let fail = |m: &mut Self| {
+            m.cov.frames_failed += 1;
+            (false, vec![])
+        };
+        for o in &f.ops {
+            match o {
+                Op::SStore(k, v) => {
+                    self.cov.hit("sstore");
+                    if cx.is_static {
+                        self.cov.static_violations += 1;
+                        return fail(self);
+                    }
+                    if *v == 0 {
+                        self.j.acc[me].storage.remove(k);
+                    } else {
+                        self.j.acc[me].storage.insert(*k, *v);
+                    }
+                }
+                Op::SLoad(k) => {
+                    self.cov.hit("sload");
+                    let v = self.j.acc[me].storage.get(k).copied().unwrap_or(0);
+                    if v != 0 {
+                        self.cov.nonzero_reads += 1;
+                    }
+                    rep.push(v);
+                }
+                Op::TStore(k, v) => {
+                    self.cov.hit("tstore");
+                    if cx.is_static {
+                        self.cov.static_violations += 1;
+                        return fail(self);
+                    }
+                    if *v == 0 {
+                        self.j.acc[me].transient.remove(k);
+                    } else {
+                        self.j.acc[me].transient.insert(*k, *v);
+                    }
+                }
+                Op::TLoad(k) => {
+                    self.cov.hit("tload");
+                    let v = self.j.acc[me].transient.get(k).copied().unwrap_or(0);
+                    if v != 0 {
+                        self.cov.nonzero_reads += 1;
+                    }
+                    rep.push(v);
+                }
+                Op::Log(t) => {
+                    self.cov.hit("log");
+                    if cx.is_static {
+                        self.cov.static_violations += 1;
+                        return fail(self);
+                    }
+                    self.j.logs.push((cx.me, *t));
+                }
+                Op::Create2 => {
+                    self.cov.hit("create2");
+                    if cx.is_static {
+                        self.cov.static_violations += 1;
+                        return fail(self);
+                    }
+                    // same creator, salt and init code => same address: the second one collides
+                    if self.j.acc[me].child {
+                        rep.push(0);
+                    } else {
+                        self.j.acc[me].child = true;
+                        rep.push(1);
+                    }
+                }
+                Op::Call(kind, g) => {
+                    self.cov.hit(match kind {
+                        Kind::Call => "call",
+                        Kind::CallValue => "call+value",
+                        Kind::Static => "staticcall",
+                        Kind::Delegate => "delegatecall",
+                    });
+                    if *kind == Kind::CallValue && cx.is_static {
+                        // value transfer in a static context: the *calling* frame fails
+                        self.cov.static_violations += 1;
+                        return fail(self);
+                    }
+                    let (ok, data) = self.call(*kind, g, cx);
+                    rep.push(ok as u8);
+                    rep.push(data.len() as u8);
+                    rep.extend_from_slice(&data);
+                }
+            }
+        }
+        match f.end {
+            End::Return => (true, rep),
+            End::Revert => {
+                self.cov.hit("revert");
+                self.cov.frames_reverted += 1;
+                (false, rep)
+            }
+            End::Invalid => {
+                self.cov.hit("invalid");
+                fail(self)
+            }
+            End::SelfDestruct => {
+                self.cov.hit("selfdestruct");
+                if cx.is_static {
+                    self.cov.static_violations += 1;
+                    return fail(self);
+                }
+                self.cov.selfdestructs += 1;
+                let b = std::mem::take(&mut self.j.acc[me].balance);
+                self.j.beneficiary += b;
+                self.j.acc[me].destructing = true;
+                (true, vec![])
+            }
+        }
+    }
+
+    fn call(&mut self, kind: Kind, g: &Frame, cx: Ctx) -> (bool, Vec<u8>) {
+        let snapshot = self.j.clone();
+        let callee_cx = match kind {
+            Kind::Delegate => Ctx { depth: cx.depth + 1, ..cx },
+            _ => {
+                let value = if kind == Kind::CallValue { 1 } else { 0 };
+                if self.j.acc[cx.me as usize].balance < value as i128 {
+                    self.cov.insufficient_funds += 1;
+                    return (false, vec![]);
+                }
+                self.j.acc[cx.me as usize].balance -= value as i128;
+                let to = &mut self.j.acc[g.c as usize];
+                to.balance += value as i128;
+                if value > 0 && to.destructing && g.c != cx.me {
+                    to.balance_unspecified = true;
+                }
+                Ctx { me: g.c, caller: Who::C(cx.me), value, is_static: cx.is_static || kind == Kind::Static, depth: cx.depth + 1 }
+            }
+        };
+        // an account without code: the call succeeds and returns nothing
+        if self.j.acc[g.c as usize].dead {
+            self.cov.calls_into_dead += 1;
+            return (true, vec![]);
+        }
+        if kind == Kind::Delegate {
+            self.cov.delegate_frames += 1;
+        }
+        let (ok, data) = self.run_frame(g, callee_cx);
+        if !ok {
+            if self.j != snapshot {
+                self.cov.rolled_back_writes += 1;
+            }
+            self.j = snapshot;
+        }
+        (ok, data)
+    }
+
+    /// One top-level message. Returns (success, return data, effective logs).
+    pub fn message(&mut self, f: &Frame, sender: usize) -> (bool, Vec<u8>, Vec<(u8, u16)>) {
+        let snapshot = self.j.clone();
+        self.j.sender[sender] -= TOP_VALUE as i128;
+        self.j.acc[f.c as usize].balance += TOP_VALUE as i128;
+        let (ok, data) = if self.j.acc[f.c as usize].dead {
+            self.cov.calls_into_dead += 1;
+            (true, vec![])
+        } else {
+            self.run_frame(f, Ctx { me: f.c, caller: Who::Sender(sender), value: TOP_VALUE, is_static: false, depth: 1 })
+        };
+        if !ok {
+            self.j = snapshot;
+        }
+        // end of the top-level message
+        let logs = std::mem::take(&mut self.j.logs);
+        for a in &mut self.j.acc {
+            a.transient.clear();
+            if a.destructing {
+                a.destructing = false;
+                a.dead = true;
+                a.storage.clear();
+            }
+        }
+        (ok, data, logs)
+    }
+}
+
+fn endowment(i: usize) -> i128 {
+    16 << i
+}
+
+// =============================================================================================
+// The implementation side: world, deployment, observation
+// =============================================================================================
+
+pub struct Env {
+    pub addrs: Vec<[u8; 20]>,
+    pub ids: Vec<ActorID>,
+    pub senders: [(ActorID, [u8; 20]); 2],
+    pub ben: (ActorID, [u8; 20]),
+    pub sender_balance: i128,
+    /// addresses of the CREATE2 children, per creator
+    pub child_addrs: Vec<[u8; 20]>,
+}
+
+pub struct World {
+    pub vm: Vm,
+    pub env: Env,
+    s0: Snapshot,
+}
+
+fn id_addr(a: ActorID) -> Address {
+    Address::new_id(a)
+}
+
+fn masked_id(id: ActorID) -> [u8; 20] {
+    let mut b = [0u8; 20];
+    b[0] = 0xff;
+    b[12..].copy_from_slice(&id.to_be_bytes());
+    b
+}
+
+const MAX_CONTRACTS: usize = 4;
+
+fn deploy(vm: &Vm, from: ActorID, runtime: &[u8], value: i128) -> Result<(ActorID, [u8; 20]), String> {
+    let r = ext(
+        vm,
+        from,
+        &EAM_ACTOR_ADDR,
+        &atto(value),
+        fil_actor_eam::Method::CreateExternal as u64,
+        Some(&fil_actor_eam::CreateExternalParams(init_code(runtime))),
+    );
+    if !r.ok() {
+        return Err(format!("deployment through EAM.CreateExternal failed:\n{}", r.tree()));
+    }
+    let ret: fil_actor_eam::CreateExternalReturn =
+        r.ret.ok_or("no return from CreateExternal")?.deserialize().map_err(|e| e.to_string())?;
+    Ok((ret.actor_id, ret.eth_address.0))
+}
+
+impl World {
+    pub fn new() -> World {
+        let vm = Vm::genesis(Store::new(), Policy::default());
+        vm.bump_nonce.set(true);
+        let sender = vm.new_account(1, &fil(1000));
+        let sender2 = vm.new_account(3, &fil(1000));
+        let ben = vm.new_account(2, &TokenAmount::zero());
+        let s0 = vm.snapshot();
+        // Addresses are a function of (deployer, deployer nonce): learn them once with dummies.
+        let mut addrs = vec![];
+        let mut ids = vec![];
+        for i in 0..MAX_CONTRACTS {
+            let (id, a) = deploy(&vm, sender.0, &[0x00], endowment(i)).unwrap_or_else(|e| {
+                eprintln!("SETUP-FAILED C19 step=deploy-dummy: {e}");
+                std::process::exit(2)
+            });
+            ids.push(id);
+            addrs.push(a);
+        }
+        vm.restore(&s0);
+        let keccak = |d: &[u8]| vm.prims.hash(SupportedHashes::Keccak256, d);
+        let init_hash = keccak(&child_init());
+        let child_addrs = addrs
+            .iter()
+            .map(|a| {
+                let mut pre = vec![0xffu8];
+                pre.extend_from_slice(a);
+                pre.extend_from_slice(&[0u8; 32]);
+                pre.extend_from_slice(&init_hash);
+                let h = keccak(&pre);
+                let mut out = [0u8; 20];
+                out.copy_from_slice(&h[12..32]);
+                out
+            })
+            .collect();
+        let sender_balance = vm.balance(sender.0).atto().try_into().unwrap();
+        vm.store.commit();
+        let env = Env {
+            addrs,
+            ids,
+            senders: [(sender.0, masked_id(sender.0)), (sender2.0, masked_id(sender2.0))],
+            ben: (ben.0, masked_id(ben.0)),
+            sender_balance,
+            child_addrs,
+        };
+        World { vm, env, s0 }
+    }
+
+    /// Deploy the system (contracts 0..n in order) on the base state; returns the snapshot.
+    fn install(&self, codes: &[Vec<u8>]) -> Result<Snapshot, String> {
+        self.vm.restore(&self.s0);
+        for (i, code) in codes.iter().enumerate() {
+            let (id, a) = deploy(&self.vm, self.env.senders[0].0, code, endowment(i))?;
+            if id != self.env.ids[i] || a != self.env.addrs[i] {
+                return Err(format!("contract {i} deployed at an unexpected address/id"));
+            }
+            // keep the nonce of the second sender equal to that of the first
+            let s2 = self.env.senders[1].0;
+            let r = ext(&self.vm, s2, &id_addr(s2), &TokenAmount::zero(), fvm_shared::METHOD_SEND, NOP);
+            if !r.ok() {
+                return Err(format!("nonce alignment send failed: {}", r.tree()));
+            }
+        }
+        let seq = |i: usize| self.vm.actor(self.env.senders[i].0).map(|a| a.sequence);
+        if seq(0) != seq(1) {
+            return Err(format!("sender nonces not aligned: {:?} vs {:?}", seq(0), seq(1)));
+        }
+        Ok(self.vm.snapshot())
+    }
+}
+
+/// Everything observed of the implementation for one top-level message.
+#[derive(Clone, Debug, PartialEq, Eq, Serialize)]
+pub struct Observed {
+    pub ok: bool,
+    pub data: Vec<u8>,
+    /// per contract: storage values of the probed keys
+    pub storage: Vec<Vec<u8>>,
+    /// per contract: GetBytecode is None / empty
+    pub code_empty: Vec<bool>,
+    /// per contract: GetBytecode (when present) equals the deployed run-time code (recorded, not
+    /// judged: that the code still *works* is what the reports show)
+    pub code_intact: Vec<bool>,
+    pub balances: Vec<i128>,
+    pub sender: [i128; 2],
+    pub beneficiary: i128,
+    pub logs: Vec<(ActorID, Option<u16>)>,
+    /// per contract: CREATE2 child exists with the expected code and storage
+    pub children: Vec<Option<bool>>,
+}
+
+fn bal(vm: &Vm, id: ActorID) -> i128 {
+    vm.balance(id).atto().try_into().unwrap()
+}
+
+fn bytes_of(b: &Option<IpldBlock>) -> Vec<u8> {
+    match b {
+        None => vec![],
+        Some(blk) => match blk.deserialize::<BytesDe>() {
+            Ok(BytesDe(v)) => v,
+            Err(_) => blk.data.clone(),
+        },
+    }
+}
+
+fn storage_at(vm: &Vm, id: ActorID, key: u8) -> Result<u8, String> {
+    let r = vm.apply(
+        MsgKind::Implicit,
+        &SYSTEM_ACTOR_ADDR,
+        &Address::new_id(id),
+        &TokenAmount::zero(),
+        fil_actor_evm::Method::GetStorageAt as u64,
+        params(&fil_actor_evm::GetStorageAtParams { storage_key: fil_actors_evm_shared::uints::U256::from(key as u64) }),
+    );
+    if !r.ok() {
+        return Err(format!("GetStorageAt failed: {}", r.tree()));
+    }
+    let ret: fil_actor_evm::GetStorageAtReturn =
+        r.ret.ok_or("GetStorageAt returned nothing")?.deserialize().map_err(|e| e.to_string())?;
+    let w = ret.storage.to_big_endian();
+    if w[..31].iter().any(|b| *b != 0) {
+        return Ok(0xff);
+    }
+    Ok(w[31])
+}
+
+/// (empty, intact)
+fn bytecode_state(vm: &Vm, id: ActorID, expect: &[u8]) -> Result<(bool, bool), String> {
+    let r = vm.apply(
+        MsgKind::Implicit,
+        &SYSTEM_ACTOR_ADDR,
+        &Address::new_id(id),
+        &TokenAmount::zero(),
+        fil_actor_evm::Method::GetBytecode as u64,
+        None,
+    );
+    if !r.ok() {
+        return Err(format!("GetBytecode failed: {}", r.tree()));
+    }
+    let ret: fil_actor_evm::BytecodeReturn =
+        r.ret.ok_or("GetBytecode returned nothing")?.deserialize().map_err(|e| e.to_string())?;
+    match ret.code {
+        None => Ok((true, false)),
+        Some(cid) => {
+            use fvm_ipld_blockstore::Blockstore;
+            let code = vm.store.get(&cid).ok().flatten().unwrap_or_default();
+            Ok((code.is_empty(), code == expect))
+        }
+    }
+}
+
+/// Observe the first `n` contracts (those the script names; the batch may have deployed more,
+/// which no frame of this script can address).
+fn observe(w: &World, sp_keys: &[u8], codes: &[Vec<u8>], n: usize, with_children: bool, inv: &Inv) -> Result<Observed, String> {
+    let vm = &w.vm;
+    let mut logs = vec![];
+    for (emitter, ev) in inv.effective_events() {
+        let topic = ev.entries.iter().find(|e| e.key == "t1").map(|e| {
+            let v = &e.value;
+            let l = v.len();
+            let hi = if l >= 2 { v[l - 2] } else { 0 };
+            let lo = if l >= 1 { v[l - 1] } else { 0 };
+            u16::from_be_bytes([hi, lo])
+        });
+        logs.push((emitter, topic));
+    }
+    let mut o = Observed {
+        ok: inv.ok(),
+        data: bytes_of(&inv.ret),
+        storage: vec![],
+        code_empty: vec![],
+        code_intact: vec![],
+        balances: vec![],
+        sender: [bal(vm, w.env.senders[0].0), bal(vm, w.env.senders[1].0)],
+        beneficiary: bal(vm, w.env.ben.0),
+        logs,
+        children: vec![],
+    };
+    for i in 0..n {
+        let id = w.env.ids[i];
+        let mut vals = vec![];
+        for &k in sp_keys {
+            vals.push(storage_at(vm, id, k)?);
+        }
+        o.storage.push(vals);
+        let (empty, intact) = bytecode_state(vm, id, &codes[i])?;
+        o.code_empty.push(empty);
+        o.code_intact.push(intact);
+        o.balances.push(bal(vm, id));
+        if with_children {
+            let f4 = Address::new_delegated(EAM_ACTOR_ID, &w.env.child_addrs[i]).unwrap();
+            o.children.push(match vm.resolve(&f4).filter(|id| vm.actor(*id).is_some()) {
+                None => Some(false),
+                Some(cid) => {
+                    // exists = an actor with non-empty code sits at the CREATE2 address
+                    let (empty, _) = bytecode_state(vm, cid, &CHILD_RUNTIME)?;
+                    Some(!empty)
+                }
+            });
+        }
+    }
+    Ok(o)
+}
+
+const PROBE_KEYS: [u8; 2] = [0, 1];
+
+/// Compare one message's observation with the journal; `Err` = disagreement.
+fn compare(env: &Env, m: &Model, ok: bool, data: &[u8], logs: &[(u8, u16)], o: &Observed, with_children: bool) -> Result<(), String> {
+    if o.ok != ok {
+        return Err(format!("top-level message {} but the journal says it {}", if o.ok { "succeeded" } else { "failed" }, if ok { "succeeds" } else { "fails" }));
+    }
+    if o.data != data {
+        return Err(format!(
+            "return data (the report of what every frame observed) differs:\n  implementation {}\n  journal        {}\n  first difference at byte {}",
+            hex::encode(&o.data),
+            hex::encode(data),
+            o.data.iter().zip(data.iter()).position(|(a, b)| a != b).unwrap_or(o.data.len().min(data.len()))
+        ));
+    }
+    for (i, a) in m.j.acc.iter().enumerate().take(o.storage.len()) {
+        let name = (b'A' + i as u8) as char;
+        for (ki, &k) in PROBE_KEYS.iter().enumerate() {
+            let want = if a.dead { 0 } else { a.storage.get(&k).copied().unwrap_or(0) };
+            if o.storage[i][ki] != want {
+                return Err(format!("GetStorageAt({name}, {k}) = {} but the journal has {}", o.storage[i][ki], want));
+            }
+        }
+        if a.dead && !o.code_empty[i] {
+            return Err(format!("{name} self-destructed and the message has ended, but it still has code"));
+        }
+        if !a.dead && o.code_empty[i] {
+            return Err(format!("{name} is alive in the journal but its bytecode is empty"));
+        }
+        if !a.balance_unspecified && o.balances[i] != a.balance {
+            return Err(format!("balance of {name} is {} but the journal has {}", o.balances[i], a.balance));
+        }
+        if with_children && o.children[i] != Some(a.child) {
+            return Err(format!("CREATE2 child of {name}: implementation {:?}, journal exists={}", o.children[i], a.child));
+        }
+    }
+    if o.sender != m.j.sender {
+        return Err(format!("sender balances are {:?} but the journal has {:?}", o.sender, m.j.sender));
+    }
+    if o.beneficiary != m.j.beneficiary {
+        return Err(format!("beneficiary balance is {} but the journal has {}", o.beneficiary, m.j.beneficiary));
+    }
+    // The property promises which logs survive, not an order across activations (and the trace
+    // groups events per invocation, not by time): compare as multisets. If the topic cannot be
+    // located in the event (layout change), only the emitters are compared.
+    let mut want_logs: Vec<(ActorID, u16)> = logs.iter().map(|(c, t)| (env.ids[*c as usize], *t)).collect();
+    want_logs.sort();
+    let logs_agree = if o.logs.iter().all(|(_, t)| t.is_some()) {
+        let mut got: Vec<(ActorID, u16)> = o.logs.iter().map(|(e, t)| (*e, t.unwrap())).collect();
+        got.sort();
+        got == want_logs
+    } else {
+        let mut got: Vec<ActorID> = o.logs.iter().map(|(e, _)| *e).collect();
+        got.sort();
+        got == want_logs.iter().map(|(e, _)| *e).collect::<Vec<_>>()
+    };
+    if !logs_agree {
+        return Err(format!("effective LOG events {:?} but the journal has {:?}", o.logs, want_logs));
+    }
+    Ok(())
+}
+
+thread_local! {
+    /// [apply, model, observe, install, compile] nanoseconds (diagnostics under MC_TIMING only)
+    static PROF: std::cell::Cell<[u64; 5]> = const { std::cell::Cell::new([0; 5]) };
+}
+fn prof(i: usize, t: Instant) {
+    PROF.with(|p| {
+        let mut v = p.get();
+        v[i] += t.elapsed().as_nanos() as u64;
+        p.set(v);
+    });
+}
+
+/// Outcome of running one script against implementation and journal.
+pub struct Outcome {
+    pub violation: Option<String>,
+    pub cover: Cover,
+    pub final_state: mcx::Key,
+    /// digest of everything observed (for the batched-vs-isolated determinism check)
+    pub digest: mcx::Key,
+    pub summary: Value,
+    pub messages: u64,
+}
+
+/// Run script `s` (already compiled into the installed system) from snapshot `s1`.
+fn run_script(w: &World, s1: &Snapshot, codes: &[Vec<u8>], s: &Script, entries: &[u16], want_summary: bool) -> Result<Outcome, String> {
+    let vm = &w.vm;
+    vm.restore(s1);
+    let n = codes.len();
+    let with_children = s.uses_create2();
+    let nc = s.contracts();
+    let mut model = Model::new(&w.env, n);
+    let mut violation = None;
+    let mut dig: Vec<u8> = vec![];
+    let mut msgs_json = vec![];
+    let mut messages = 0;
+    for (mi, f) in s.msgs.iter().enumerate() {
+        let calldata = entries[mi].to_be_bytes().to_vec();
+        let t = Instant::now();
+        let inv = vm.apply(
+            MsgKind::External,
+            &Address::new_id(w.env.senders[s.sender_of(mi)].0),
+            &Address::new_id(w.env.ids[f.c as usize]),
+            &atto(TOP_VALUE as i128),
+            fil_actor_evm::Method::InvokeContract as u64,
+            IpldBlock::serialize_cbor(&BytesSer(&calldata)).unwrap(),
+        );
+        prof(0, t);
+        messages += 1;
+        let t = Instant::now();
+        let (ok, data, logs) = model.message(f, s.sender_of(mi));
+        prof(1, t);
+        let t = Instant::now();
+        let o = observe(w, &PROBE_KEYS, codes, nc, with_children, &inv)?;
+        prof(2, t);
+        {
+            // digest of what was observed (sender balance net of the endowments of the batch)
+            let paid: i128 = (0..n).map(endowment).sum();
+            dig.push(o.ok as u8);
+            dig.extend_from_slice(&(o.data.len() as u32).to_le_bytes());
+            dig.extend_from_slice(&o.data);
+            for i in 0..nc {
+                dig.extend_from_slice(&o.storage[i]);
+                dig.push(o.code_empty[i] as u8);
+                dig.push(o.code_intact[i] as u8);
+                dig.extend_from_slice(&o.balances[i].to_le_bytes());
+                if with_children {
+                    dig.push(match o.children[i] {
+                        None => 2,
+                        Some(b) => b as u8,
+                    });
+                }
+            }
+            dig.extend_from_slice(&(o.sender[0] + paid).to_le_bytes());
+            dig.extend_from_slice(&o.sender[1].to_le_bytes());
+            dig.extend_from_slice(&o.beneficiary.to_le_bytes());
+            for (e, t) in &o.logs {
+                dig.extend_from_slice(&e.to_le_bytes());
+                dig.extend_from_slice(&t.map(|t| t as u32).unwrap_or(u32::MAX).to_le_bytes());
+            }
+        }
+        if want_summary {
+            msgs_json.push(json!({
+                "message": mi + 1, "success": o.ok, "report": hex::encode(&o.data),
+                "storage_after": o.storage, "code_empty_after": o.code_empty, "balances_after": o.balances,
+                "beneficiary_after": o.beneficiary.to_string(),
+            }));
+        }
+        if let Err(e) = compare(&w.env, &model, ok, &data, &logs, &o, with_children) {
+            violation = Some(format!("message {} of script [{}]: {}\ninvocation trace:\n{}", mi + 1, s.pretty(), e, inv.tree()));
+            break;
+        }
+    }
+    let final_state = mcx::hash_key(&[&model.j.bytes(nc)]);
+    Ok(Outcome {
+        violation,
+        cover: model.cov,
+        final_state,
+        digest: mcx::hash_key(&[&dig]),
+        summary: json!({"script": s.pretty(), "messages": msgs_json}),
+        messages,
+    })
+}
+
+/// Compile + install + run one script in isolation (replay, determinism sample).
+fn run_isolated(w: &World, s: &Script) -> Result<Outcome, String> {
+    let (c, taken) = compile_batch(&w.env, std::slice::from_ref(s), usize::MAX);
+    assert_eq!(taken, 1);
+    let s1 = w.install(&c.codes)?;
+    let r = run_script(w, &s1, &c.codes, s, &c.entries[0], true);
+    w.vm.store.discard();
+    r
+}
+
+
+// =============================================================================================
+// Driver
+// =============================================================================================
+
+#[derive(Default)]
+struct WorkerOut {
+    scripts: u64,
+    messages: u64,
+    batches: u64,
+    cover: Cover,
+    flags: BTreeMap<&'static str, u64>,
+    finals: HashSet<mcx::Key>,
+    per_size: BTreeMap<usize, u64>,
+    /// (script index, index of the first script of its work unit, script, message)
+    violations: Vec<(u64, u64, Script, String)>,
+    samples: Vec<(u64, Script, mcx::Key)>,
+    /// first script (smallest index) exhibiting a feature
+    first_with: BTreeMap<&'static str, (u64, Script)>,
+    machinery: Option<String>,
+    max_code: usize,
+}
+
+/// Deterministic thinning for the batched-vs-isolated check: all of the first 32 scripts, then
+/// 16-32 per octave of the script index.
+fn sampled(i: u64) -> bool {
+    if i < 32 {
+        return true;
+    }
+    let p = (i / 32).next_power_of_two();
+    i % p == 0
+}
+
+fn script_flags(c: &Cover) -> Vec<&'static str> {
+    let mut v = vec![];
+    if c.frames_reverted > 0 {
+        v.push("has_reverted_frame");
+    }
+    if c.frames_failed > 0 {
+        v.push("has_failed_frame");
+    }
+    if c.rolled_back_writes > 0 {
+        v.push("has_rolled_back_effects");
+    }
+    if c.reentrant_frames > 0 {
+        v.push("has_reentrancy");
+    }
+    if c.selfdestructs > 0 {
+        v.push("has_selfdestruct");
+    }
+    if c.calls_into_dead > 0 {
+        v.push("calls_into_destroyed_contract");
+    }
+    if c.delegate_frames > 0 {
+        v.push("has_delegatecall_frame");
+    }
+    if c.static_violations > 0 {
+        v.push("has_static_violation");
+    }
+    if c.insufficient_funds > 0 {
+        v.push("has_insufficient_funds_call");
+    }
+    if c.nonzero_reads > 0 {
+        v.push("reads_a_nonzero_value");
+    }
+    if c.ops.contains_key("create2") {
+        v.push("has_create2");
+    }
+    if c.ops.contains_key("log") {
+        v.push("has_log");
+    }
+    v
+}
+
+type Job = (u64, usize, Vec<Script>);
+
+fn process_batch(w: &World, sp: &Space, first: u64, size_class: usize, scripts: &[Script], out: &mut WorkerOut) {
+    let mut done = 0;
+    while done < scripts.len() {
+        let t = Instant::now();
+        let (c, taken) = compile_batch(&w.env, &scripts[done..], sp.code_budget);
+        prof(4, t);
+        let t = Instant::now();
+        out.max_code = out.max_code.max(c.codes.iter().map(|c| c.len()).max().unwrap_or(0));
+        let s1 = match w.install(&c.codes) {
+            Ok(s) => s,
+            Err(e) => {
+                out.machinery = Some(e);
+                return;
+            }
+        };
+        prof(3, t);
+        out.batches += 1;
+        for (bi, s) in scripts[done..done + taken].iter().enumerate() {
+            let idx = first + (done + bi) as u64;
+            match run_script(w, &s1, &c.codes, s, &c.entries[bi], false) {
+                Err(e) => {
+                    out.machinery = Some(format!("script [{}]: {e}", s.pretty()));
+                    return;
+                }
+                Ok(o) => {
+                    out.scripts += 1;
+                    out.messages += o.messages;
+                    *out.per_size.entry(size_class).or_default() += 1;
+                    out.finals.insert(o.final_state);
+                    out.cover.merge(&o.cover);
+                    for fl in script_flags(&o.cover) {
+                        *out.flags.entry(fl).or_default() += 1;
+                        if out.first_with.get(fl).is_none_or(|e| idx < e.0) {
+                            out.first_with.insert(fl, (idx, s.clone()));
+                        }
+                    }
+                    if let Some(v) = o.violation {
+                        out.violations.push((idx, first, s.clone(), v));
+                    } else if sampled(idx) {
+                        out.samples.push((idx, s.clone(), o.digest));
+                    }
+                }
+            }
+        }
+        w.vm.store.discard();
+        done += taken;
+    }
+}
+
+fn threads() -> usize {
+    std::env::var("MC_THREADS")
+        .ok()
+        .and_then(|s| s.parse().ok())
+        .unwrap_or_else(|| std::thread::available_parallelism().map(|n| n.get()).unwrap_or(8))
+        .max(1)
+}
+
+struct SpaceResult {
+    tot: WorkerOut,
+    produced: BTreeMap<usize, u64>,
+    /// size classes whose enumeration ran to its end
+    enumerated: Vec<usize>,
+    capped: bool,
+    completed: usize,
+    exhaustive: bool,
+    wall_s: f64,
+}
+
+/// Enumerate one space completely (or until `deadline_s` of the tier's clock) on all cores.
+fn explore_space(sp: &Space, t0: Instant, deadline_s: f64, count_only: bool) -> SpaceResult {
+    let t_start = Instant::now();
+    let nthreads = threads();
+    let stop = AtomicBool::new(false);
+    let capped = AtomicBool::new(false);
+    let produced: Mutex<BTreeMap<usize, u64>> = Mutex::new(BTreeMap::new());
+    let enumerated: Mutex<Vec<usize>> = Mutex::new(vec![]);
+    let (tx, rx) = std::sync::mpsc::sync_channel::<Job>(nthreads * 8);
+    let rx = Mutex::new(rx);
+
+    let outs: Vec<WorkerOut> = std::thread::scope(|sc| {
+        // producer: the enumeration is sequential and cheap (< 1 µs per script)
+        let (stop_r, produced_r, enumerated_r) = (&stop, &produced, &enumerated);
+        sc.spawn(move || {
+            let en = Enumerator { sp, simple: sp.simple_ops(), stop: stop_r };
+            let mut buf: Vec<Script> = vec![];
+            let mut first = 0u64;
+            let mut next = 0u64;
+            let mut cur_size = 0usize;
+            let tx = tx;
+            let flush = |buf: &mut Vec<Script>, first: &mut u64, next: u64, size: usize| {
+                if !buf.is_empty() {
+                    let n = buf.len() as u64;
+                    if count_only || tx.send((*first, size, std::mem::take(buf))).is_ok() {
+                        *produced_r.lock().unwrap().entry(size).or_default() += n;
+                    }
+                    buf.clear();
+                }
+                *first = next;
+            };
+            en.run(&mut |size, s| {
+                if size != cur_size {
+                    flush(&mut buf, &mut first, next, cur_size);
+                    if cur_size > 0 && !stop_r.load(Ordering::Relaxed) {
+                        enumerated_r.lock().unwrap().push(cur_size);
+                    }
+                    cur_size = size;
+                }
+                buf.push(s);
+                next += 1;
+                if buf.len() >= sp.batch {
+                    flush(&mut buf, &mut first, next, cur_size);
+                }
+            });
+            if !stop_r.load(Ordering::Relaxed) {
+                flush(&mut buf, &mut first, next, cur_size);
+                if cur_size > 0 {
+                    enumerated_r.lock().unwrap().push(cur_size);
+                }
+            }
+        });
+        let mut hs = vec![];
+        for _ in 0..nthreads {
+            let (rx, stop, capped) = (&rx, &stop, &capped);
+            hs.push(
+                std::thread::Builder::new()
+                    .stack_size(256 << 20)
+                    .spawn_scoped(sc, move || {
+                        let mut out = WorkerOut::default();
+                        if count_only {
+                            return out;
+                        }
+                        let w = World::new();
+                        loop {
+                            let job = rx.lock().unwrap().recv();
+                            let Ok((first, size, scripts)) = job else { break };
+                            if stop.load(Ordering::Relaxed) {
+                                continue; // drain so that the producer can finish
+                            }
+                            if t0.elapsed().as_secs_f64() > deadline_s {
+                                capped.store(true, Ordering::Relaxed);
+                                stop.store(true, Ordering::Relaxed);
+                                continue;
+                            }
+                            process_batch(&w, sp, first, size, &scripts, &mut out);
+                            if !out.violations.is_empty() || out.machinery.is_some() {
+                                stop.store(true, Ordering::Relaxed);
+                            }
+                        }
+                        if std::env::var("MC_TIMING").is_ok() {
+                            let p = PROF.with(|p| p.get());
+                            eprintln!("  worker: scripts {} apply {:.2}s model {:.2}s observe {:.2}s install {:.2}s compile {:.2}s", out.scripts, p[0] as f64 / 1e9, p[1] as f64 / 1e9, p[2] as f64 / 1e9, p[3] as f64 / 1e9, p[4] as f64 / 1e9);
+                        }
+                        out
+                    })
+                    .unwrap(),
+            );
+        }
+        hs.into_iter().map(|h| h.join().expect("worker panicked (machinery error)")).collect()
+    });
+
+    let mut tot = WorkerOut::default();
+    for o in outs {
+        if let Some(m) = o.machinery {
+            eprintln!("MACHINERY ERROR C19: {m}");
+            std::process::exit(2);
+        }
+        tot.scripts += o.scripts;
+        tot.messages += o.messages;
+        tot.batches += o.batches;
+        tot.cover.merge(&o.cover);
+        tot.max_code = tot.max_code.max(o.max_code);
+        for (k, v) in o.flags {
+            *tot.flags.entry(k).or_default() += v;
+        }
+        for (k, v) in o.per_size {
+            *tot.per_size.entry(k).or_default() += v;
+        }
+        tot.finals.extend(o.finals);
+        tot.violations.extend(o.violations);
+        tot.samples.extend(o.samples);
+        for (k, v) in o.first_with {
+            if tot.first_with.get(k).is_none_or(|e| v.0 < e.0) {
+                tot.first_with.insert(k, v);
+            }
+        }
+    }
+    tot.violations.sort_by_key(|v| v.0);
+    tot.samples.sort_by_key(|v| v.0);
+    let produced = produced.into_inner().unwrap();
+    let enumerated = enumerated.into_inner().unwrap();
+    let was_capped = capped.load(Ordering::Relaxed);
+    let mut completed = 0;
+    for size in 1..=sp.max_size {
+        let p = produced.get(&size).copied().unwrap_or(0);
+        if enumerated.contains(&size) && p == tot.per_size.get(&size).copied().unwrap_or(0) && tot.violations.is_empty() {
+            completed = size;
+        } else {
+            break;
+        }
+    }
+    let exhaustive = !count_only && !was_capped && tot.violations.is_empty() && completed == sp.max_size;
+    SpaceResult { tot, produced, enumerated, capped: was_capped, completed, exhaustive, wall_s: t_start.elapsed().as_secs_f64() }
+}
+
+pub fn run(tier: &str) -> ! {
+    let spaces = Space::for_tier(tier);
+    let count_only = std::env::var("C19_COUNT_ONLY").is_ok();
+    let t0 = Instant::now();
+    let cap_s: f64 = std::env::var("C19_CAP_S").ok().and_then(|s| s.parse().ok()).unwrap_or(if tier_is_thorough(tier) { 1140.0 } else { 27.0 });
+    let mut run = mcx::evidence::Run::new("C19", tier, "model_checking");
+    run.assumptions = vec![
+        "mcvm mirrors the FVM message semantics (value transfer before dispatch, rollback of state, balances and events on abort, read-only propagation to sub-calls)".into(),
+        "no gas: the 63/64 rule and out-of-gas failures are outside the model".into(),
+        "storage keys {0,1}; values from a 2-3 element set; transfers of 1 atto; one fixed beneficiary account; one fixed CREATE2 child per creator".into(),
+        "several scripts share one deployed system (one bytecode per contract, frames selected by call data); a sample is re-run in isolation and must observe exactly the same".into(),
+        "not judged: exit codes, gas, event layout beyond emitter and first topic, the balance of a contract that received funds after self-destructing in the same message".into(),
+    ];
+    let mut all_samples: Vec<Value> = vec![];
+    let mut per_space: Vec<Value> = vec![];
+    let mut total_scripts = 0u64;
+    let mut total_msgs = 0u64;
+    let mut all_finals: HashSet<mcx::Key> = HashSet::new();
+    let mut all_exhaustive = true;
+    let mut flags_total: BTreeMap<&'static str, u64> = BTreeMap::new();
+    let mut cover_total = Cover::default();
+    let mut isolated_total = 0u64;
+    let mut found_violation = false;
+
+    for sp in &spaces {
+        let res = explore_space(sp, t0, cap_s, count_only);
+        if count_only {
+            eprintln!("[C19] space {}: scripts per size class {:?} total {} ({:.2}s)", sp.name, res.produced, res.produced.values().sum::<u64>(), res.wall_s);
+            continue;
+        }
+        let tot = &res.tot;
+        // determinism check: re-run a sample in isolation (own system, fresh VM): the observations
+        // must be exactly those of the batched run
+        let mut replayed = 0u64;
+        let w = World::new();
+        if tot.violations.is_empty() {
+            for (idx, s, digest) in &tot.samples {
+                match run_isolated(&w, s) {
+                    Ok(o) if o.violation.is_none() && o.digest == *digest => replayed += 1,
+                    Ok(o) => {
+                        eprintln!(
+                            "MACHINERY ERROR C19: script #{idx} [{}] behaves differently in isolation than in its batch ({})",
+                            s.pretty(),
+                            o.violation.unwrap_or_else(|| "observations differ".into())
+                        );
+                        std::process::exit(2);
+                    }
+                    Err(e) => {
+                        eprintln!("MACHINERY ERROR C19: {e}");
+                        std::process::exit(2);
+                    }
+                }
+            }
+        }
+        // Replay-twice before reporting a violation. Reported: the violation with the smallest
+        // script index and up to two more of the same work unit. (Work units are handed out in
+        // index order and always run to their end, so this choice is independent of thread timing;
+        // violations found in later units before the workers stopped are not.)
+        let unit = tot.violations.first().map(|v| v.1);
+        for (idx, _, s, msg) in tot.violations.iter().filter(|v| Some(v.1) == unit).take(3) {
+            match run_isolated(&w, s) {
+                Ok(o) if o.violation.is_some() => {
+                    found_violation = true;
+                    run.extra_violations.push(ViolationReport {
+                        scenario: format!("c19/{}", sp.name),
+                        base: "fresh-system".into(),
+                        path: vec![PathStep { action: serde_json::to_value(s).unwrap(), faults: vec![] }],
+                        message: msg.to_string(),
+                    });
+                }
+                Ok(_) => {
+                    eprintln!("MACHINERY ERROR C19: violation of script #{idx} [{}] does not reproduce in isolation: {msg}", s.pretty());
+                    std::process::exit(2);
+                }
+                Err(e) => {
+                    eprintln!("MACHINERY ERROR C19: {e}");
+                    std::process::exit(2);
+                }
+            }
+        }
+        // samples: the first script exhibiting each feature, with what was observed
+        for (why, (idx, s)) in &tot.first_with {
+            if all_samples.iter().any(|x| x["why"] == *why) {
+                continue;
+            }
+            if let Ok(o) = run_isolated(&w, s) {
+                all_samples.push(json!({"space": sp.name, "why": why, "script_index": idx, "script_json": s, "trace": o.summary, "agrees_with_journal": o.violation.is_none()}));
+            }
+        }
+        let mut caps = vec![];
+        if res.capped {
+            caps.push(format!(
+                "wall cap {}s hit inside size class {} ({} of {} produced scripts of that class executed; its enumeration was cut short)",
+                cap_s,
+                res.completed + 1,
+                tot.per_size.get(&(res.completed + 1)).copied().unwrap_or(0),
+                res.produced.get(&(res.completed + 1)).copied().unwrap_or(0)
+            ));
+        }
+        let mut outcomes: BTreeMap<String, BTreeMap<String, u64>> = BTreeMap::new();
+        for (k, v) in &tot.cover.ops {
+            outcomes.entry(k.to_string()).or_default().insert("executed_in_model".into(), *v);
+        }
+        let vac = json!({
+            "scripts_with": tot.flags,
+            "model_executions": {
+                "frames_run": tot.cover.frames_run, "frames_reverted": tot.cover.frames_reverted,
+                "frames_failed": tot.cover.frames_failed, "reentrant_frames": tot.cover.reentrant_frames,
+                "selfdestructs": tot.cover.selfdestructs, "calls_into_destroyed": tot.cover.calls_into_dead,
+                "nonzero_reads": tot.cover.nonzero_reads, "static_violations": tot.cover.static_violations,
+                "insufficient_funds": tot.cover.insufficient_funds, "delegate_frames": tot.cover.delegate_frames,
+                "frames_whose_effects_were_rolled_back": tot.cover.rolled_back_writes,
+            },
+        });
+        let report = mcx::Report {
+            scenario: format!("c19/{}", sp.name),
+            states: tot.finals.len() as u64,
+            transitions: tot.messages,
+            agreed: tot.scripts,
+            replayed,
+            depth_completed: res.completed,
+            max_depth: sp.max_size,
+            max_faults: 0,
+            fault_transitions: 0,
+            exhaustive: res.exhaustive,
+            caps_hit: caps,
+            level_sizes: (1..=sp.max_size).map(|s| tot.per_size.get(&s).copied().unwrap_or(0)).collect(),
+            outcomes,
+            known: Default::default(),
+            violations: vec![],
+            samples: vec![],
+            wall_s: res.wall_s,
+            bases: vec!["fresh-system".into()],
+            describe: json!({
+                "policy": "MAINNET",
+                "space": sp,
+                "note": "depth_completed / max_depth / level_sizes are in units of *total ops per script* (size classes, smallest first); states = distinct final journal states; transitions = top-level messages",
+                "top_level_value_atto": TOP_VALUE, "endowments_atto": (0..sp.max_contracts).map(endowment).collect::<Vec<_>>(),
+                "scripts_produced_per_size_class": res.produced,
+                "size_classes_enumerated_to_the_end": res.enumerated,
+                "systems_deployed": tot.batches, "largest_generated_bytecode": tot.max_code,
+                "vacuity": vac,
+            }),
+            store_bytes: 0,
+        };
+        eprintln!(
+            "[C19] {}: scripts={} messages={} final-states={} systems={} completed-size={}/{} exhaustive={} wall={:.1}s max-code={}B",
+            sp.name, tot.scripts, tot.messages, tot.finals.len(), tot.batches, res.completed, sp.max_size, res.exhaustive, res.wall_s, tot.max_code
+        );
+        per_space.push(json!({"space": sp.name, "scripts": tot.scripts, "messages": tot.messages, "distinct_final_states": tot.finals.len(),
+            "scripts_per_size_class": tot.per_size, "size_classes_completed": res.completed, "exhaustive": res.exhaustive, "wall_s": res.wall_s}));
+        total_scripts += tot.scripts;
+        total_msgs += tot.messages;
+        all_finals.extend(tot.finals.iter().cloned());
+        all_exhaustive &= res.exhaustive;
+        for (k, v) in &tot.flags {
+            *flags_total.entry(k).or_default() += v;
+        }
+        cover_total.merge(&tot.cover);
+        isolated_total += replayed;
+        run.add(report);
+        if found_violation {
+            break;
+        }
+    }
+    if count_only {
+        std::process::exit(0);
+    }
+    let ce = &mut run.coverage_extra;
+    ce.insert("scripts_compared".into(), json!(total_scripts));
+    ce.insert("top_level_messages".into(), json!(total_msgs));
+    // `states`: distinct final journal states over all spaces (the per-space counts overlap)
+    if !all_finals.is_empty() {
+        ce.insert("states".into(), json!(all_finals.len()));
+    }
+    ce.insert("distinct_final_journal_states_over_all_spaces".into(), json!(all_finals.len()));
+    ce.insert("spaces".into(), json!(per_space));
+    ce.insert("isolated_reruns_identical".into(), json!(isolated_total));
+    ce.insert("threads".into(), json!(threads()));
+    ce.insert("exhaustive".into(), json!(all_exhaustive && !found_violation));
+    ce.insert("vacuity".into(), json!({"scripts_with": flags_total, "ops_executed_in_model": cover_total.ops}));
+    ce.insert("samples".into(), Value::Array(all_samples));
+    run.finish()
 }
 
 /// Replay a violation file written by this check; `v` is the parsed replay JSON.
-pub fn replay(_v: &serde_json::Value) -> ! {
-    eprintln!("C19: replay not implemented");
-    std::process::exit(2)
+pub fn replay(v: &Value) -> ! {
+    let Some(action) = v["path"].get(0).map(|p| p["action"].clone()) else {
+        eprintln!("replay machinery error: no path[0].action in the replay file");
+        std::process::exit(2)
+    };
+    let mut s: Script = match serde_json::from_value(action) {
+        Ok(s) => s,
+        Err(e) => {
+            eprintln!("replay machinery error: script does not decode: {e}");
+            std::process::exit(2)
+        }
+    };
+    s.number_logs();
+    if s.msgs.is_empty() || s.contracts() > MAX_CONTRACTS {
+        eprintln!("replay machinery error: script outside the supported shape");
+        std::process::exit(2);
+    }
+    let w = World::new();
+    match run_isolated(&w, &s) {
+        Ok(o) => match o.violation {
+            Some(msg) => {
+                println!("REPRODUCED property={} {}", v["property"].as_str().unwrap_or("C19"), msg);
+                std::process::exit(1)
+            }
+            None => {
+                println!("NOT-REPRODUCED: the recorded script [{}] agrees with the journal on this tree", s.pretty());
+                std::process::exit(0)
+            }
+        },
+        Err(e) => {
+            eprintln!("replay machinery error: {e}");
+            std::process::exit(2)
+        }
+    }
 }
